@@ -254,6 +254,7 @@ pub fn arg_u64(args: &[String], name: &str, default: u64) -> u64 {
 pub struct WrapSigner {
     pub inner: c2pa::BoxedSigner,
     pub reserve: Option<usize>,
+    pub tsa: Option<String>,
 }
 impl c2pa::Signer for WrapSigner {
     fn sign(&self, data: &[u8]) -> c2pa::Result<Vec<u8>> {
@@ -266,7 +267,10 @@ impl c2pa::Signer for WrapSigner {
         self.inner.certs()
     }
     fn reserve_size(&self) -> usize {
-        self.reserve.unwrap_or_else(|| self.inner.reserve_size())
+        self.reserve.unwrap_or_else(|| self.inner.reserve_size() + if self.tsa.is_some() { 10000 } else { 0 })
+    }
+    fn time_authority_url(&self) -> Option<String> {
+        self.tsa.clone()
     }
 }
 
